@@ -7,7 +7,7 @@ CHECKS = [
         "property_id": "C10",
         "technique": "Lean 4 proof (kernel lemmas over BitVec 64 about definitions regenerated from buffer.go; encode/decode round trip by induction) + differential correspondence of model/spec/implementation",
         "text": "Theorems, for all int64 values/offsets/widths with no bound: the offset guards admit exactly the in-range offsets (no wrap-around), the range checks are exactly representability, the stored bytes are the two's-complement digits in the stated order placed by a splice that leaves every other byte unchanged, sign extension is two's-complement decoding, read(write(v)) = v; the registered method table (all Uint/UInt aliases) matches the names. The guards, range checks, sign extension and the per-method facts are re-extracted from buffer.go on every run, so the theorems are re-proved against the current source; the end-to-end call semantics (argument coercion order, error classes, float narrowing) is tied by running model, specification and real code on the same generated calls.",
-        "note": "Trusted: Lean kernel; verif-extract; the harness; goja's ToInteger/IsNumber and Go's float32 conversion are modelled (bit-level) and only exercised, not proved. The composition of the building-block theorems into one end-to-end statement per method is checked by the driver on every generated call rather than proved.",
+        "note": "Trusted: Lean kernel; verif-extract; the harness; goja's ToInteger/IsNumber and Go's float32 conversion are modelled (bit-level) and only exercised, not proved. The end-to-end theorem model_refines_spec composes the building blocks for every method name, buffer and argument tuple of the claimed domain.",
     },
     {
         "property_id": "C19",
@@ -24,7 +24,7 @@ CHECKS = [
     {
         "property_id": "C12",
         "technique": "Lean 4 proof (in-place compaction/set loops refined to list operations by loop invariants; percent-encoding round trip with a 256-entry table fact closed by decide over the regenerated table) + differential correspondence of code-shaped model, list-level specification and implementation",
-        "text": "Theorems for every list and every byte string: delete (all three forms) leaves exactly List.filter of the WHATWG condition; unescape(escape s) = s over the escape table re-extracted from url/escape.go, which is proved to escape '%', '+', '&', '=', '?'; parser clauses ('+', valid/malformed %XX, empty pairs, one leading '?'); getters and live iterators are the list operations. set/sort/parse(serialize l) = l are proved in GN/Url/ParamsLemmas2.lean when present (see evidence 'theorems'), and are in any case compared on every generated history against the WHATWG list-level specification by the driver. The tie to the code: regenerated tables + running the same operation histories on the real URLSearchParams.",
+        "text": "Theorems for every list and every byte string: delete (all three forms) leaves exactly List.filter of the WHATWG condition; unescape(escape s) = s over the escape table re-extracted from url/escape.go, which is proved to escape '%', '+', '&', '=', '?'; parser clauses ('+', valid/malformed %XX, empty pairs, one leading '?'); getters and live iterators are the list operations. set (found flag, in-place write, range-copy semantics) equals the WHATWG list-level set; sort is sorted, a permutation and stable; parse(serialize l) = l for every list of pairs of byte strings. The driver additionally compares every generated history against the list-level specification. The tie to the code: regenerated tables + running the same operation histories on the real URLSearchParams.",
         "note": "Trusted: Lean kernel, verif-extract (tables), the harness; goja string conversion and sort.Stable modelled. Histories are sampled.",
     },
 ]
